@@ -5,7 +5,6 @@ import (
 	"fmt"
 	"net/http"
 	"strconv"
-	"strings"
 
 	"github.com/danielgtaylor/huma/v2"
 	"github.com/danielgtaylor/huma/v2/adapters/humachi"
@@ -91,7 +90,7 @@ func createGetCmafIngesterInfoHdlr(s *Server) func(ctx context.Context, input *i
 		if err != nil {
 			return nil, huma.Error400BadRequest(fmt.Sprintf("Invalid ID: %s", input.Id))
 		}
-		ing, ok := s.cmafMgr.ingesters[uint64(id)]
+		ing, _, ok := s.cmafMgr.getIngester(uint64(id))
 		if !ok {
 			return nil, huma.Error404NotFound(fmt.Sprintf("CMAF ingest %s not found", input.Id))
 		}
@@ -100,7 +99,7 @@ func createGetCmafIngesterInfoHdlr(s *Server) func(ctx context.Context, input *i
 		resp.Body.DestName = ing.destName
 		resp.Body.URL = ing.url
 		resp.Body.ID = input.Id
-		resp.Body.Report = strings.Join(ing.report, "\n")
+		resp.Body.Report = ing.getReport()
 		return resp, nil
 	}
 }
@@ -111,7 +110,7 @@ func createStepCmafIngesterHdlr(s *Server) func(ctx context.Context, input *idIn
 		if err != nil {
 			return nil, huma.Error400BadRequest(fmt.Sprintf("Invalid ID: %s", input.Id))
 		}
-		ci, ok := s.cmafMgr.ingesters[uint64(id)]
+		ci, _, ok := s.cmafMgr.getIngester(uint64(id))
 		if !ok {
 			return nil, huma.Error404NotFound(fmt.Sprintf("CMAF ingest %s not found", input.Id))
 		}
@@ -130,15 +129,13 @@ func createDeleteCmafIngesterHdlr(s *Server) func(ctx context.Context, input *id
 		if err != nil {
 			return nil, huma.Error400BadRequest(fmt.Sprintf("Invalid ID: %s", input.Id))
 		}
-		ci, ok := s.cmafMgr.ingesters[uint64(id)]
+		_, cancel, ok := s.cmafMgr.getIngester(uint64(id))
 		if !ok {
 			return nil, huma.Error404NotFound(fmt.Sprintf("CMAF ingest %s not found", input.Id))
 		}
-		if ci.state == ingesterStateRunning {
-			ci.mgr.cancels[uint64(id)]()
+		if cancel != nil { // Cancelling twice is harmless
+			cancel()
 		}
-
-		s.cmafMgr.cancels[uint64(id)]()
 		resp := &CmafIngestDeleteResponse{}
 		resp.Body.ID = fmt.Sprintf("Deleted %s!", input.Id)
 		return resp, nil
